@@ -1,113 +1,94 @@
 //! C15 — SOCKS5 client dialogue against a scripted in-memory server.
-//! @encodes socks5_client::connect / connect_inner
 //! @encodes socks5_client::SocksWriter::{write_selection_message, write_authentication_message, write_request}
 //! @encodes socks5_client::SocksReader::{read_selection_response, read_authentication_response, read_reply}
+//! @assume socks5_client::connect_inner itself is NOT encoded: its UDP ASSOCIATE branch owns a tokio::net::UdpSocket, and any code that reaches tokio's runtime context (even only through drop glue) makes the Kani compiler crash (kani-compiler/src/intrinsics.rs:243).  The message writers and readers it is composed of are examined one by one; the three-line negotiation match between them is outside the claim
 //! @assume the transport is a scripted in-memory AsyncRead+AsyncWrite that is never pending, delivers the server's bytes in segments of 1 byte or all-at-once (instances) and reports EOF after its script; field lengths are concrete per instance, contents symbolic
 //! @assume error-message formatting (alloc::fmt::format) is stubbed out
 use super::*;
 use crate::verif_env::{fmt_format_stub, poll_n, ScriptedIo};
 
-fn run<'a, const NR: usize, const NW: usize>(
-    io: &'a mut ScriptedIo<NR, NW>,
-    auth: Option<Authentication<'a>>,
-    request: Request<'a>,
-) -> Option<Result<u8, u8>> {
-    // Ok(0) = TcpConnection, Ok(1 + code) = Failure(code), Err(0) = Io, Err(1) = Protocol, Err(2) = Authentication
-    let mut fut = Box::pin(connect(io, auth, request));
-    let r = poll_n(&mut fut, 2)?;
-    let out = match &r {
-        Ok(ConnectResult::TcpConnection(_)) => Ok(0),
-        Ok(ConnectResult::Failure(c)) => Ok(1 + match c {
-            ReplyCode::Succeeded => 0,
-            ReplyCode::GeneralFailure => 1,
-            ReplyCode::NotAllowed => 2,
-            ReplyCode::NetworkUnreachable => 3,
-            ReplyCode::HostUnreachable => 4,
-            ReplyCode::ConnectionRefused => 5,
-            ReplyCode::TtlExpired => 6,
-            ReplyCode::CommandNotSupported => 7,
-            ReplyCode::AddressTypeNotSupported => 8,
-        }),
-        Ok(ConnectResult::UdpAssociation(_)) => Ok(200),
-        Err(Error::Io(_)) => Err(0),
-        Err(Error::Protocol(_)) => Err(1),
-        Err(Error::Authentication(_)) => Err(2),
-    };
-    std::mem::forget(r);
-    std::mem::forget(fut);
-    Some(out)
+
+fn done<T>(r: Option<T>) -> T {
+    match r {
+        Some(x) => x,
+        None => {
+            assert!(false, "C15.pending: a dialogue step did not complete although the transport is never pending");
+            loop {}
+        }
+    }
 }
 
-/// No credentials, CONNECT to an IPv4 literal; symbolic method byte, reply code, reserved byte, bound address.
-fn noauth_v4<const SEG: usize, const SCRIPT_LEN: usize>() {
-    let script: [u8; 12] = kani::any();
-    let dst: [u8; 4] = kani::any();
-    let port: u16 = kani::any();
-    let mut io = ScriptedIo::<12, 32>::new(script, SCRIPT_LEN, SEG);
-    kani::assume(script[6] == ADDRESS_TYPE_IP_V4 || SCRIPT_LEN < 7);
-    let r = run(&mut io, None, Request::Connect(Address::IpAddress(IpAddr::from(dst)), port));
-    let r = match r {
-        None => {
-            assert!(false, "C15.pending: the dialogue did not complete although the transport is never pending");
-            return;
-        }
-        Some(r) => r,
-    };
-    // greeting: VER=5, NMETHODS=2, no-auth twice (no credentials available)
-    assert!(io.wlen >= 4 && io.written[0] == 5 && io.written[1] == 2 && io.written[2] == 0 && io.written[3] == 0, "C15.greeting.noauth: greeting must be 05 02 00 00 when no credentials are available");
-    let ver_ok = SCRIPT_LEN >= 2 && script[0] == 5;
-    let method = script[1];
-    if SCRIPT_LEN < 2 {
-        assert!(r == Err(0), "C15.trunc.selection: a truncated method selection must be an I/O error");
-        assert!(io.wlen == 4, "C15.trunc.selection_silent: nothing may be sent after a failed negotiation");
-    } else if !ver_ok {
-        assert!(r == Err(1), "C15.selection.version: wrong version in the method selection must be a protocol error");
-        assert!(io.wlen == 4, "C15.selection.silent: nothing may be sent after a failed negotiation");
-    } else if method != 0 {
-        assert!(r == Err(1) || r == Err(2), "C15.selection.not_offered: proceeding although the server selected a method that was not offered (or none)");
-        if method == 0xff || method == 2 || method == 0x80 {
-            assert!(r == Err(2), "C15.selection.auth_error: 0xff / a known method that was not offered must be an authentication failure");
-        }
-        assert!(io.wlen == 4, "C15.selection.silent: nothing may be sent after a failed negotiation");
-    } else {
-        // request: 05 01 00 01 a b c d ph pl
-        assert!(io.wlen == 14, "C15.request.len: CONNECT request to an IPv4 literal is 10 bytes");
-        assert!(io.written[4] == 5 && io.written[5] == 1 && io.written[6] == 0 && io.written[7] == 1, "C15.request.head: VER CMD RSV ATYP must be 05 01 00 01");
-        assert!(io.written[8] == dst[0] && io.written[9] == dst[1] && io.written[10] == dst[2] && io.written[11] == dst[3], "C15.request.addr: destination address altered");
-        assert!(io.written[12] == (port >> 8) as u8 && io.written[13] == port as u8, "C15.request.port: port not big-endian");
-        // reply: 05 REP 00 01 a b c d p p  = script[2..12]
-        if SCRIPT_LEN < 12 {
-            // truncated somewhere in the reply: never a success
-            assert!(r != Ok(0), "C15.trunc.reply_success: a truncated reply is treated as success");
-            if script[2] == 5 && script[3] <= 8 && (SCRIPT_LEN < 5 || script[4] == 0) {
-                assert!(r == Err(0), "C15.trunc.reply: a truncated reply must be an I/O error");
-            }
-        } else if script[2] != 5 {
-            assert!(r == Err(1), "C15.reply.version: wrong version in the reply must be a protocol error");
-        } else if script[3] > 8 {
-            assert!(r == Err(1), "C15.reply.code_unknown: an unassigned reply code must be a protocol error");
-        } else if script[4] != 0 {
-            assert!(r == Err(1), "C15.reply.reserved: non-zero reserved byte must be a protocol error");
-        } else if script[3] == 0 {
-            assert!(r == Ok(0), "C15.reply.success: REP=0 must establish the connection");
-        } else {
-            assert!(r == Ok(1 + script[3]), "C15.reply.failure: REP=1..8 must be reported as that failure");
-        }
-        kani::cover!(r == Ok(0), "C15.cover.noauth_established");
-        kani::cover!(r == Ok(5), "C15.cover.noauth_failure_reply");
+fn err_kind<T>(r: &Result<T, Error>) -> u8 {
+    match r {
+        Ok(_) => 0,
+        Err(Error::Io(_)) => 1,
+        Err(Error::Protocol(_)) => 2,
+        Err(Error::Authentication(_)) => 3,
     }
-    kani::cover!(r == Err(2), "C15.cover.noauth_auth_error");
+}
+
+// @harness tier=quick core=yes bound="every pair of offered methods"
+// @desc the greeting is 05 NMETHODS methods... with NMETHODS equal to the number of methods offered
+// @encodes socks5_client::SocksWriter::write_selection_message
+#[kani::proof]
+#[kani::unwind(40)]
+#[kani::stub(alloc::fmt::format, fmt_format_stub)]
+fn c15_greeting_layout() {
+    let pick = |x: u8| match x % 3 {
+        0 => AuthenticationMethod::NoAuth,
+        1 => AuthenticationMethod::UsernamePassword,
+        _ => AuthenticationMethod::ExtendedAuth,
+    };
+    let (a, b): (u8, u8) = (kani::any(), kani::any());
+    let methods = [pick(a), pick(b)];
+    let mut io = ScriptedIo::<1, 16>::new([0], 0, 1);
+    let r = {
+        let mut fut = Box::pin(io.write_selection_message(&methods));
+        let r = done(poll_n(&mut fut, 2));
+        std::mem::forget(fut);
+        r
+    };
+    assert!(r.is_ok(), "C15.greeting.err");
+    assert!(io.wlen == 4 && io.written[0] == 5 && io.written[1] == 2, "C15.greeting.head: greeting must be 05 02 m1 m2");
+    assert!(io.written[2] == methods[0].to_u8() && io.written[3] == methods[1].to_u8(), "C15.greeting.methods: offered methods altered");
+    std::mem::forget(r);
+}
+
+/// Method selection reply: VER METHOD, delivered in segments of SEG bytes, truncated to LEN bytes.
+fn selection<const SEG: usize, const LEN: usize>() {
+    let script: [u8; 2] = kani::any();
+    let mut io = ScriptedIo::<2, 4>::new(script, LEN, SEG);
+    let r = {
+        let mut fut = Box::pin(io.read_selection_response());
+        let r = done(poll_n(&mut fut, 2));
+        std::mem::forget(fut);
+        r
+    };
+    if LEN < 2 && !(LEN == 1 && script[0] != 5) {
+        assert!(err_kind(&r) == 1, "C15.selection.trunc: a truncated method selection must be an I/O error");
+    } else if script[0] != 5 {
+        assert!(err_kind(&r) == 2, "C15.selection.version: wrong version must be a protocol error");
+    } else {
+        let m = script[1];
+        match &r {
+            Ok(x) => assert!(x.to_u8() == m && (m == 0 || m == 2 || m == 0x80 || m == 0xff), "C15.selection.method: selected method misread"),
+            Err(_) => assert!(!(m == 0 || m == 2 || m == 0x80 || m == 0xff) && err_kind(&r) == 2, "C15.selection.reject: a known method byte is rejected / an unknown one is not a protocol error"),
+        }
+        kani::cover!(r.is_ok(), "C15.cover.selection_ok");
+    }
+    kani::cover!(r.is_err(), "C15.cover.selection_err");
+    std::mem::forget(r);
 }
 
 /*@gen
-{"name": "c15_noauth_connect_v4_seg{0}_script{1}", "call": "noauth_v4::<{0}, {1}>()", "unwind": 20, "stubs": ["fmt"], "core": true,
- "bound": "no credentials, CONNECT a.b.c.d:port (symbolic); server script of {1} symbolic bytes (full dialogue = 12) delivered in segments of at most {0} byte(s)",
- "desc": "greeting 05 02 00 00; proceeds only if the server selects method 00; request 05 01 00 01 addr port; TcpConnection only for REP=0, Failure(code) for 1..8, error otherwise; truncation at the stated byte is an error; nothing is written after a failed negotiation",
- "encodes": ["socks5_client::connect_inner", "socks5_client::SocksReader::read_reply", "socks5_client::SocksWriter::write_request"],
- "quick": "[(12,12),(1,12),(12,1),(12,5),(1,9),(12,11)]", "thorough": "[(s,l) for s in (1,3) for l in range(0,13) if (s,l) not in [(1,12),(1,9)]]"}
+{"name": "c15_selection_reply_seg{0}_len{1}", "call": "selection::<{0}, {1}>()", "unwind": 40, "stubs": ["fmt"], "core": true,
+ "bound": "method-selection reply of {1} symbolic byte(s) (2 = complete) delivered in segments of at most {0} byte(s)",
+ "desc": "VER must be 5; the method byte is reported exactly (00, 02, 80, ff) or rejected as a protocol error; truncation is an I/O error; same result for every segmentation",
+ "encodes": ["socks5_client::SocksReader::read_selection_response"],
+ "quick": "[(2,2),(1,2),(2,1),(2,0)]"}
 @*/
 
-/// Username/password authentication (RFC 1929) with field lengths U, P.
+/// RFC 1929 message for field lengths U, P (NW = capacity of the recording transport).
 fn userpass<const U: usize, const P: usize, const NW: usize>() {
     let ub: [u8; U] = kani::any();
     let pb: [u8; P] = kani::any();
@@ -125,64 +106,75 @@ fn userpass<const U: usize, const P: usize, const NW: usize>() {
     kani::assume(ascii);
     let user = unsafe { std::str::from_utf8_unchecked(&ub) };
     let pass = unsafe { std::str::from_utf8_unchecked(&pb) };
-    let script: [u8; 14] = kani::any();
-    kani::assume(script[0] == 5 && script[1] == 2); // server selects username/password
-    kani::assume(script[2] == 1); // auth reply version
-    kani::assume(script[4] == 5 && script[6] == 0 && script[7] == ADDRESS_TYPE_IP_V4);
-    let mut io = ScriptedIo::<14, NW>::new(script, 14, 14);
-    let r = run(&mut io, Some(Authentication::UsernamePassword(Cow::Borrowed(user), Cow::Borrowed(pass))), Request::Connect(Address::IpAddress(IpAddr::from([192, 0, 2, 1])), 443));
-    let r = match r {
-        None => {
-            assert!(false, "C15.pending: the dialogue did not complete although the transport is never pending");
-            return;
-        }
-        Some(r) => r,
+    let auth = std::mem::ManuallyDrop::new(Authentication::UsernamePassword(Cow::Borrowed(user), Cow::Borrowed(pass)));
+    let mut io = ScriptedIo::<1, NW>::new([0], 0, 1);
+    let r = {
+        let mut fut = Box::pin(io.write_authentication_message(&auth));
+        let r = done(poll_n(&mut fut, 2));
+        std::mem::forget(fut);
+        r
     };
-    assert!(io.wlen >= 4 && io.written[0] == 5 && io.written[1] == 2 && io.written[2] == 2 && io.written[3] == 0, "C15.greeting.userpass: greeting must offer 02 (username/password) and 00");
     if U > 255 || P > 255 {
         // RFC 1929: ULEN and PLEN are one octet.  The request must fail without a malformed message on the wire.
         assert!(r.is_err(), "C15.auth.overlong_accepted: credentials that do not fit RFC 1929 did not fail the request");
-        assert!(io.wlen == 4, "C15.auth.overlong_malformed: a malformed RFC 1929 message (length octet truncated) was sent");
+        assert!(io.wlen == 0, "C15.auth.overlong_malformed: a malformed RFC 1929 message (length octet truncated) was sent");
     } else {
-        assert!(io.wlen >= 4 + 3 + U + P, "C15.auth.len: RFC 1929 message too short");
-        assert!(io.written[4] == 1, "C15.auth.ver: RFC 1929 version must be 01");
-        assert!(io.written[5] as usize == U, "C15.auth.ulen: ULEN is not the user name length");
+        assert!(r.is_ok(), "C15.auth.err: writing well-formed credentials failed");
+        assert!(io.wlen == 3 + U + P, "C15.auth.len: RFC 1929 message must be 01 ULEN user PLEN pass");
+        assert!(io.written[0] == 1, "C15.auth.ver: RFC 1929 version must be 01");
+        assert!(io.written[1] as usize == U, "C15.auth.ulen: ULEN is not the user name length");
         let mut i = 0;
         while i < U {
-            assert!(io.written[6 + i] == ub[i], "C15.auth.user: user name altered");
+            assert!(io.written[2 + i] == ub[i], "C15.auth.user: user name altered");
             i += 1;
         }
-        assert!(io.written[6 + U] as usize == P, "C15.auth.plen: PLEN is not the password length");
+        assert!(io.written[2 + U] as usize == P, "C15.auth.plen: PLEN is not the password length");
         let mut i = 0;
         while i < P {
-            assert!(io.written[7 + U + i] == pb[i], "C15.auth.pass: password altered");
+            assert!(io.written[3 + U + i] == pb[i], "C15.auth.pass: password altered");
             i += 1;
         }
-        if script[3] != 0 {
-            assert!(r == Err(2), "C15.auth.status: a non-zero authentication status must fail the request");
-            assert!(io.wlen == 4 + 3 + U + P, "C15.auth.silent: nothing may be sent after a failed authentication");
-        } else {
-            assert!(io.wlen == 4 + 3 + U + P + 10, "C15.auth.then_request: request must follow a successful authentication");
-            if script[5] == 0 {
-                assert!(r == Ok(0), "C15.auth.established");
-            }
-        }
-        kani::cover!(r == Ok(0), "C15.cover.userpass_established");
-        kani::cover!(r == Err(2), "C15.cover.userpass_rejected");
     }
     kani::cover!(true, "C15.cover.userpass_reached");
+    std::mem::forget(r);
 }
 
 /*@gen
 {"name": "c15_userpass_u{0}_p{1}", "call": "userpass::<{0}, {1}, {2}>()", "unwind": "max({0}, {1}) + 20", "stubs": ["fmt"], "core": true,
- "bound": "user name of exactly {0} and password of exactly {1} ASCII bytes (symbolic); server selects method 02; symbolic authentication status and reply code",
- "desc": "RFC 1929 message is 01 ULEN user PLEN pass with exact lengths, or - when a field exceeds 255 bytes - the request fails before any byte of the message is written; a non-zero status fails the request",
- "encodes": ["socks5_client::SocksWriter::write_authentication_message", "socks5_client::SocksReader::read_authentication_response"],
- "quick": "[(1,1,32),(0,3,32),(3,0,32)]", "thorough": "[(255,1,300),(256,1,300),(1,256,300),(2,255,300)]"}
+ "bound": "user name of exactly {0} and password of exactly {1} ASCII bytes (symbolic contents)",
+ "desc": "the RFC 1929 message is 01 ULEN user PLEN pass with exact lengths, or - when a field exceeds 255 bytes - the step fails before any byte is written",
+ "encodes": ["socks5_client::SocksWriter::write_authentication_message"],
+ "quick": "[(1,1,16),(0,3,16),(3,0,16),(256,1,8),(1,256,8)]", "thorough": "[(255,1,300),(2,255,300),(300,300,8)]"}
 @*/
 
-/// CONNECT to a domain name of length L.
-fn domain<const L: usize, const NW: usize>() {
+/// Authentication status reply: VER STATUS.
+// @harness tier=quick core=yes bound="every 2-byte authentication reply"
+// @desc version must be 01 and a non-zero status fails the request as an authentication error
+// @encodes socks5_client::SocksReader::read_authentication_response
+#[kani::proof]
+#[kani::unwind(40)]
+#[kani::stub(alloc::fmt::format, fmt_format_stub)]
+fn c15_auth_status_reply() {
+    let script: [u8; 2] = kani::any();
+    let mut io = ScriptedIo::<2, 4>::new(script, 2, 2);
+    let r = {
+        let mut fut = Box::pin(io.read_authentication_response());
+        let r = done(poll_n(&mut fut, 2));
+        std::mem::forget(fut);
+        r
+    };
+    if script[0] != 1 {
+        assert!(err_kind(&r) == 2, "C15.authreply.version: wrong sub-negotiation version must be a protocol error");
+    } else if script[1] != 0 {
+        assert!(err_kind(&r) == 3, "C15.authreply.status: a non-zero status must fail the request as an authentication failure");
+    } else {
+        assert!(r.is_ok(), "C15.authreply.ok: status 00 must be accepted");
+    }
+    std::mem::forget(r);
+}
+
+/// CONNECT request: KIND 0 = IPv4, 1 = IPv6, 2 = domain name of L bytes.
+fn request<const KIND: usize, const L: usize, const NW: usize>() {
     let nb: [u8; L] = kani::any();
     let mut ascii = true;
     let mut i = 0;
@@ -192,39 +184,106 @@ fn domain<const L: usize, const NW: usize>() {
     }
     kani::assume(ascii);
     let name = unsafe { std::str::from_utf8_unchecked(&nb) };
+    let a4: [u8; 4] = kani::any();
+    let a6: [u8; 16] = kani::any();
     let port: u16 = kani::any();
-    let script: [u8; 12] = kani::any();
-    kani::assume(script[0] == 5 && script[1] == 0 && script[2] == 5 && script[4] == 0 && script[5] == ADDRESS_TYPE_IP_V4);
-    let mut io = ScriptedIo::<12, NW>::new(script, 12, 12);
-    let r = run(&mut io, None, Request::Connect(Address::DomainName(Cow::Borrowed(name)), port));
-    let r = match r {
-        None => {
-            assert!(false, "C15.pending: the dialogue did not complete although the transport is never pending");
-            return;
-        }
-        Some(r) => r,
+    let dest = std::mem::ManuallyDrop::new(match KIND {
+        0 => Address::IpAddress(IpAddr::from(a4)),
+        1 => Address::IpAddress(IpAddr::from(a6)),
+        _ => Address::DomainName(Cow::Borrowed(name)),
+    });
+    let mut io = ScriptedIo::<1, NW>::new([0], 0, 1);
+    let r = {
+        let mut fut = Box::pin(io.write_request(0x01, &dest, port));
+        let r = done(poll_n(&mut fut, 2));
+        std::mem::forget(fut);
+        r
     };
-    if L > 255 {
-        assert!(r.is_err(), "C15.domain.overlong_accepted: a domain name longer than 255 bytes did not fail the request");
-        assert!(io.wlen == 4, "C15.domain.overlong_malformed: a malformed request was sent for an over-long domain name");
+    if KIND == 2 && L > 255 {
+        assert!(r.is_err(), "C15.request.overlong_accepted: a domain name longer than 255 bytes did not fail the request");
+        assert!(io.wlen == 0, "C15.request.overlong_malformed: a malformed request was sent for an over-long domain name");
     } else {
-        assert!(io.wlen == 4 + 5 + L + 2, "C15.domain.len: request length");
-        assert!(io.written[4] == 5 && io.written[5] == 1 && io.written[6] == 0 && io.written[7] == 3, "C15.domain.head: VER CMD RSV ATYP must be 05 01 00 03");
-        assert!(io.written[8] as usize == L, "C15.domain.name_len: length octet is not the name length");
+        assert!(r.is_ok(), "C15.request.err: writing a well-formed request failed");
+        let alen = match KIND {
+            0 => 4,
+            1 => 16,
+            _ => 1 + L,
+        };
+        assert!(io.wlen == 4 + alen + 2, "C15.request.len: request length");
+        assert!(io.written[0] == 5 && io.written[1] == 1 && io.written[2] == 0, "C15.request.head: VER CMD RSV must be 05 01 00");
+        assert!(io.written[3] == match KIND { 0 => 1, 1 => 4, _ => 3 }, "C15.request.atyp: address type does not match the destination");
         let mut i = 0;
-        while i < L {
-            assert!(io.written[9 + i] == nb[i], "C15.domain.name: domain name altered");
+        while i < alen {
+            let want = match KIND {
+                0 => a4[i],
+                1 => a6[i],
+                _ => if i == 0 { L as u8 } else { nb[i - 1] },
+            };
+            assert!(io.written[4 + i] == want, "C15.request.addr: destination address / name altered");
             i += 1;
         }
-        assert!(io.written[9 + L] == (port >> 8) as u8 && io.written[10 + L] == port as u8, "C15.domain.port: port not big-endian after the name");
+        assert!(io.written[4 + alen] == (port >> 8) as u8 && io.written[5 + alen] == port as u8, "C15.request.port: port not big-endian after the address");
     }
-    kani::cover!(true, "C15.cover.domain_reached");
+    kani::cover!(true, "C15.cover.request_reached");
+    std::mem::forget(r);
 }
 
 /*@gen
-{"name": "c15_connect_domain_len{0}", "call": "domain::<{0}, {1}>()", "unwind": "{0} + 20", "stubs": ["fmt"], "core": true,
- "bound": "CONNECT to a domain name of exactly {0} ASCII bytes (symbolic), symbolic port",
- "desc": "request is 05 01 00 03 LEN name port, or fails without sending a malformed request when the name exceeds 255 bytes",
+{"name": "c15_request_{3}", "call": "request::<{0}, {1}, {2}>()", "unwind": "{1} + 24", "stubs": ["fmt"], "core": true,
+ "bound": "CONNECT request to {3} (address / name contents and port symbolic)",
+ "desc": "the request is 05 01 00 ATYP addr port with the destination's own address type, or fails without writing anything when the domain name exceeds 255 bytes",
  "encodes": ["socks5_client::SocksWriter::write_request"],
- "quick": "[(1,40),(4,40)]", "thorough": "[(0,40),(255,300),(256,300)]"}
+ "quick": "[(0,0,32,'ipv4'),(1,0,32,'ipv6'),(2,1,32,'domain1'),(2,4,32,'domain4'),(2,256,8,'domain256')]", "thorough": "[(2,0,32,'domain0'),(2,255,300,'domain255')]"}
+@*/
+
+/// Server reply VER REP RSV ATYP BND.ADDR BND.PORT with an IPv4 bound address (10 bytes), truncated to LEN, segments of SEG.
+fn reply_v4<const SEG: usize, const LEN: usize>() {
+    let script: [u8; 10] = kani::any();
+    kani::assume(script[3] == ADDRESS_TYPE_IP_V4 || LEN < 4);
+    let mut io = ScriptedIo::<10, 4>::new(script, LEN, SEG);
+    let r = {
+        let mut fut = Box::pin(io.read_reply());
+        let r = done(poll_n(&mut fut, 2));
+        std::mem::forget(fut);
+        r
+    };
+    let hdr_ok = script[0] == 5 && script[1] <= 8 && script[2] == 0;
+    if LEN == 10 {
+        if script[0] != 5 {
+            assert!(err_kind(&r) == 2, "C15.reply.version: wrong version must be a protocol error");
+        } else if script[1] > 8 {
+            assert!(err_kind(&r) == 2, "C15.reply.code_unknown: an unassigned reply code must be a protocol error");
+        } else if script[2] != 0 {
+            assert!(err_kind(&r) == 2, "C15.reply.reserved: a non-zero reserved byte must be a protocol error");
+        } else {
+            match &r {
+                Ok(rep) => {
+                    assert!(ReplyCode::from_u8(script[1]).as_ref() == Some(&rep.code), "C15.reply.code: reply code misread");
+                    assert!(rep.bound_port == u16::from_be_bytes([script[8], script[9]]), "C15.reply.port: bound port misread");
+                    assert!((rep.code == ReplyCode::Succeeded) == (script[1] == 0), "C15.reply.success: success must be REP = 00 and nothing else");
+                }
+                Err(_) => assert!(false, "C15.reply.rejected: a well-formed reply is rejected"),
+            }
+            kani::cover!(script[1] == 0, "C15.cover.reply_success");
+            kani::cover!(script[1] == 4, "C15.cover.reply_host_unreachable");
+        }
+    } else {
+        // truncated: never a success; an I/O error unless an earlier byte already made it a protocol error
+        assert!(r.is_err(), "C15.reply.trunc_accepted: a truncated reply is accepted");
+        let seen_bad = (LEN >= 1 && script[0] != 5) || (LEN >= 2 && script[1] > 8) || (LEN >= 3 && script[2] != 0);
+        if !seen_bad {
+            assert!(err_kind(&r) == 1, "C15.reply.trunc: a truncated reply must be an I/O error");
+        }
+        let _ = hdr_ok;
+    }
+    kani::cover!(r.is_err(), "C15.cover.reply_err");
+    std::mem::forget(r);
+}
+
+/*@gen
+{"name": "c15_reply_v4_seg{0}_len{1}", "call": "reply_v4::<{0}, {1}>()", "unwind": 40, "stubs": ["fmt"], "core": true,
+ "bound": "server reply with an IPv4 bound address: {1} symbolic byte(s) of the 10, delivered in segments of at most {0} byte(s)",
+ "desc": "every REP / RSV / VER value: success only for 00, failure codes 01..08 reported as such, everything else a protocol error; truncation after any byte is an error; same result for every segmentation",
+ "encodes": ["socks5_client::SocksReader::read_reply"],
+ "quick": "[(10,10),(1,10),(3,10),(10,0),(10,3),(10,9)]", "thorough": "[(s,l) for s in (1,4) for l in range(0,11) if (s,l) != (1,10)]"}
 @*/
